@@ -1,4 +1,5 @@
 import Proofs.XfrFault2
+import Proofs.XfrWire
 /-!
 # C13 — Inbound AXFR/IXFR converges to the server's zone or leaves the zone untouched
 
@@ -27,6 +28,8 @@ exclusion of `dns.node` and the TTL/singleton rules of `dns.rdataset` — act as
   `fault_axfr_nonapex_soa`;
 * undetectable faults, result = what the stream denotes: `fault_drop_axfr_record_denotes`,
   `fault_drop_deletion_denotes`, `fault_swap_deletion_across_boundary`;
+* through wire format: `wire_keeps_order_from_soa`, `wire_ixfr_one_rr`, `ixfr_wire_converges`,
+  `axfr_wire_converges`;
 * `consts_ok`, `serialLt_asymm`, `serialLt_ahead`, `extract_of_make`.
 -/
 namespace C13
@@ -686,6 +689,115 @@ theorem fault_wrong_base_serial (o : Name) (cur : Soa) (steps : List Step) (z0 :
     have hB : procAnswers false (mid o ixfrType true (some b) false (soaRR o (lastSoa cur (st :: rest))) true false
         ⟨z0, false⟩ z0) [] = .ok _ := rfl
     exact raise_at rfl hf hB rfl (mid_soa_mismatch (fun h => hb1 h.symm)) hc
+
+/-! ## through wire format
+
+What `Inbound` is fed in a real transfer is `dns.message.from_wire(wire, xfr=True, one_rr_per_rrset=is_ixfr)`
+of each message (`readMsg`, `parseAnswer`): from the first SOA of a message on, one rrset per record in wire
+order; before it (continuation messages of an AXFR) records of one owner and type merge. -/
+
+/-- **Nothing moves across an SOA when a message is read**: an SOA record and all that follows it in the
+message come out as one rrset per record, in wire order, behind whatever preceded — so surplus records
+after the final SOA are still after it when `process_message` looks (`fault_surplus_after_final_soa`). -/
+theorem wire_keeps_order_from_soa (one : Bool) (l : List RR) (s : RR) (extra : List RR) (hs : s.rdtype = soaType) :
+    parseAnswer one (l ++ s :: extra) = parseAnswer one l ++ single s :: extra.map single :=
+  parse_keeps_order_from_soa one l s extra hs
+
+/-- an IXFR message is read one rrset per record -/
+theorem wire_ixfr_one_rr (l : List RR) : parseAnswer true l = l.map single := parse_one_rr l
+
+/-- **IXFR read from the wire converges**: the server's records cut into wire messages in any way, each read
+with `one_rr_per_rrset=True`. -/
+theorem ixfr_wire_converges (o : Name) (v0 : Version) (vs : List Version) (z0 : Zone) (wms : List WireMsg)
+    (recs : List RR) (hrecs : recs.map single = ixfrStream o v0.soa (diffSteps v0 vs))
+    (hflat : wms.flatMap (·.recs) = recs) (hhdr : ∀ w ∈ wms, w.rcode = 0 ∧ w.question = [])
+    (hfirst : ∀ w ∈ wms.head?, w.recs ≠ [])
+    (hne : vs ≠ []) (hz0 : z0 ≃z zoneOf o v0) (hv0 : WfVersion o v0) (hvs : ∀ v ∈ vs, WfVersion o v)
+    (hdist : ∀ v ∈ (v0 :: vs).dropLast, v.soa.rdata ≠ (lastVersion v0 vs).soa.rdata)
+    (hs1 : (lastVersion v0 vs).soa.rdata.serial ≠ v0.soa.rdata.serial)
+    (hs2 : serialLt (lastVersion v0 vs).soa.rdata.serial v0.soa.rdata.serial = false) :
+    (run true ⟨some o, ixfrType, some v0.soa.rdata.serial, false⟩ z0 (wms.map (readMsg true))).err = none ∧
+      (run true ⟨some o, ixfrType, some v0.soa.rdata.serial, false⟩ z0 (wms.map (readMsg true))).zone ≃z
+        zoneOf o (lastVersion v0 vs) := by
+  have hc : Chunks ⟨some o, ixfrType, some v0.soa.rdata.serial, false⟩ (ixfrStream o v0.soa (diffSteps v0 vs))
+      (wms.map (readMsg true)) := by
+    refine ⟨?_, ?_, ?_⟩
+    · rw [← hrecs, ← hflat]
+      clear hfirst hhdr hflat
+      induction wms with
+      | nil => rfl
+      | cons w rest ih => simp [readMsg, parse_one_rr, ih]
+    · intro m hm
+      simp only [List.mem_map] at hm
+      obtain ⟨w, hw, rfl⟩ := hm
+      exact ⟨(hhdr w hw).1, Or.inl (hhdr w hw).2⟩
+    · intro m hm
+      cases wms with
+      | nil => simp at hm
+      | cons w rest =>
+        simp only [List.map_cons, List.head?_cons, Option.mem_def, Option.some.injEq] at hm
+        subst hm
+        have := hfirst w (by simp)
+        simp only [readMsg, parse_one_rr]
+        intro h; exact this (List.map_eq_nil_iff.1 h)
+  have := ixfr_converges o v0 vs z0 _ hne hz0 hv0 hvs hdist hs1 hs2 hc
+  exact ⟨this.1, this.2.1⟩
+
+/-- **AXFR read from the wire converges**: first message `SOA, b0`, any number of continuation messages
+(each read with rrset merging, `one_rr_per_rrset=False`), last message `bl, SOA`; the zone ends as the set
+of records sent, with their TTLs. -/
+theorem axfr_wire_converges (o : Name) (soa : Soa) (z0 : Zone) (ser : Option Nat) (first last : WireMsg)
+    (mids : List WireMsg) (b0 bl : List RR)
+    (hf : first.recs = soaRec o soa :: b0) (hl : last.recs = bl ++ [soaRec o soa])
+    (hhdr : ∀ w ∈ first :: mids ++ [last], w.rcode = 0 ∧ w.question = [])
+    (hok : ∀ r ∈ b0 ++ mids.flatMap (·.recs) ++ bl, r.rdtype ≠ soaType ∧ isSubdomain r.owner o = true)
+    (hco : Coherent ((b0 ++ mids.flatMap (·.recs) ++ bl) ++ [soaRec o soa])) :
+    (run true ⟨some o, axfrType, ser, false⟩ z0 ((first :: mids ++ [last]).map (readMsg false))).err = none ∧
+      (run true ⟨some o, axfrType, ser, false⟩ z0 ((first :: mids ++ [last]).map (readMsg false))).zone ≃z
+        ((b0 ++ mids.flatMap (·.recs) ++ bl) ++ [soaRec o soa]) := by
+  have hsr : (soaRec o soa).rdtype = soaType := rfl
+  have hcB : Coherent (b0 ++ mids.flatMap (·.recs) ++ bl) := hco.subset fun r hr => List.mem_append.2 (Or.inl hr)
+  -- the three kinds of message, read
+  have e1 : parseAnswer false first.recs = soaRR o soa :: b0.map single := by
+    rw [hf, parse_from_soa false _ _ hsr]; rfl
+  have e3 : parseAnswer false last.recs = parseAnswer false bl ++ [soaRR o soa] := by
+    rw [hl, parse_keeps_order_from_soa false bl _ [] hsr]; rfl
+  have hmid := parse_mids (o := o) mids
+    (fun m hm r hr => hok r (by simp only [List.mem_append, List.mem_flatMap]; exact Or.inl (Or.inr ⟨m, hm, hr⟩)))
+    (hcB.subset fun r hr => by simp only [List.mem_append] at hr ⊢; exact Or.inl (Or.inr hr))
+  have hbl := parse_soa_free bl (fun r hr => (hok r (by simp [hr])).1)
+    (hcB.subset fun r hr => List.mem_append.2 (Or.inr hr))
+  have hblok := rrsets_of_parse_ok (o := o) (fun r hr => hok r (by simp [hr])) hbl.1 hbl.2
+  -- the version the parsed stream is the AXFR of
+  let body' := b0.map single ++ (mids.flatMap fun m => parseAnswer false m.recs) ++ parseAnswer false bl
+  have hbody : recsOfAll body' ≃z (b0 ++ mids.flatMap (·.recs) ++ bl) := by
+    intro q
+    simp only [body', recsOfAll_append, recsOfAll_singles, List.mem_append]
+    rw [hmid.2 q, hbl.2 q]
+  have hbok : BodyOk o body' := by
+    intro rs hrs
+    simp only [body', List.mem_append] at hrs
+    rcases hrs with (h | h) | h
+    · exact bodyOk_singles (fun r hr => hok r (by simp [hr])) rs h
+    · exact hmid.1 rs h
+    · exact hblok rs h
+  have hzo : zoneOf o ⟨soa, body'⟩ ≃z ((b0 ++ mids.flatMap (·.recs) ++ bl) ++ [soaRec o soa]) := by
+    intro q; simp only [zoneOf, List.mem_append]; rw [hbody q]; simp only [List.mem_append]
+  have hc : Chunks ⟨some o, axfrType, ser, false⟩ (axfrStream o ⟨soa, body'⟩)
+      ((first :: mids ++ [last]).map (readMsg false)) := by
+    refine ⟨?_, ?_, ?_⟩
+    · simp only [List.map_cons, List.map_append, List.flatMap_cons, List.flatMap_append, List.flatMap_map,
+        readMsg, List.map_nil, List.flatMap_nil, List.append_nil, e1, e3, axfrStream, body']
+      simp [List.append_assoc]
+    · intro m hm
+      simp only [List.mem_map] at hm
+      obtain ⟨w, hw, rfl⟩ := hm
+      exact ⟨(hhdr w hw).1, Or.inl (hhdr w hw).2⟩
+    · intro m hm
+      simp only [List.cons_append, List.map_cons, List.head?_cons, Option.mem_def, Option.some.injEq] at hm
+      subst hm; simp [readMsg, e1]
+  have := axfr_converges o ⟨soa, body'⟩ z0 ser _ hbok (Coherent.congr hzo hco) hc
+  exact ⟨this.1, Zone.equiv_trans this.2.1 hzo⟩
 
 /-! ## `dns.query.inbound_xfr`: UDP first, TCP retry -/
 
